@@ -2557,13 +2557,17 @@ def convert_ops_to_lut(op: Operation, arch, nng) -> Operation:
         name = "exp"
     elif op.type == Op.Log:
         def log(value):
-            if (value == 0):
+            # The table covers the whole range of the input type, also values outside the domain of the function
+            if (value <= 0):
                 value = sys.float_info.min
             return math.log(value)
         func = log
         name = "log"
     elif op.type == Op.Sqrt:
-        func = math.sqrt
+        def sqrt(value):
+            # The table covers the whole range of the input type, also values outside the domain of the function
+            return math.sqrt(max(value, 0.0))
+        func = sqrt
         name = "sqrt"
     elif op.type == Op.Gelu:
         def gelu(x):
